@@ -2506,6 +2506,8 @@ class SymEx:
                 return r_
         if fv[0] == 'call' and fv[1] == ('ext', 'functools.wraps') and len(args) == 1 and not kwargs:
             return [(st, args[0])]          # functools.wraps(f)(w) is w
+        if fv[0] == 'call' and fv[1] in (('ext', 'functools.lru_cache'), ('ext', 'functools.cache')) and len(args) == 1 and not kwargs and _callable_value(args[0], self):
+            return [(st, args[0])]          # lru_cache(maxsize=n)(f) computes what f computes (memoisation is examined by C18, not here)
         if fv[0] == 'var' and fv[1].startswith('class:') and self.M.cls(fv[1][6:]) is not None:
             c_ = self.M.cls(fv[1][6:])            # a class held in a variable / table and called: construction
             return self.ctor_call(c_, c_.lookup('__init__'), args, kwargs, st, e, 'ctor:' + c_.name, 1)
@@ -2662,6 +2664,9 @@ class SymEx:
     def call_opaque(self, e, fv, args, kwargs, st, how='value'):
         site = self.site(e)
         fn = self.fn
+        if (fv in (('ext', 'functools.lru_cache'), ('ext', 'functools.cache')) or (fv[0] == 'call' and fv[1] in (('ext', 'functools.lru_cache'), ('ext', 'functools.cache')))) \
+                and len(args) == 1 and not kwargs and _callable_value(args[0], self):
+            return [(st, args[0])]          # lru_cache(f) / lru_cache(maxsize=n)(f) / cache(f) computes what f computes (memoisation itself is C18's business)
         kws = tuple(sorted(kwargs, key=lambda kv: str(kv[0])))
         args = _canon_reducer_args(fv, args)
         if fv == ('ext', 'INT') and len(args) == 1 and not kws and args[0][0] == 'call' and args[0][1] == ('ext', 'INT'):
